@@ -419,3 +419,83 @@ class remove_quotes_none:
     ensures = ['result is None']
     raises = []
     serves = ['C12']
+
+
+# --------------------------------------------------------------------------------- call-site form of group_tokens
+
+class _GroupTokensCallsite:
+    """modular use of the verified group_tokens cases: assert the precondition 0 <= start <= end < len, then perform the
+    abstract effect that the `ensures` of the verified cases pin down: the list becomes
+    old[:start] ++ [grp] ++ old[end+1:], grp owns exactly old[start..end] (or, in the extend case, old[start] is
+    extended by old[start+1..end]); text, parents and cached value as proved."""
+
+    @staticmethod
+    def model(ex, self_val, args, kw, st):
+        from pyvc.models import bind_params, _const_default, repo_fn_node
+        q = 'sqlparse.sql.TokenList.group_tokens'
+        env = bind_params(ex, repo_fn_node(q), self_val, args, kw, st, lambda d: _const_default(ex, d, None))
+        me, cls, start, end = env['self'], env['grp_cls'], env['start'], env['end']
+        if env['include_end'] is not True:
+            raise OutsideSubset('group_tokens call with include_end != True')
+        extend = env['extend']
+        pre = st.fork()
+        pre.env = dict(env)
+        for j, r in enumerate(group_tokens_new.requires):
+            ex.goal('%s/call:TokenList.group_tokens.pre#%d' % (ex.fn, j), st, ex.spec(r, pre), {'requires': r})
+        # caller-specific obligations at this call site (declared in the caller's contract, evaluated in its frame)
+        for j, a in enumerate((getattr(ex.contract, 'callsite_asserts', None) or {}).get('group_tokens', [])):
+            ex.goal('%s/call:TokenList.group_tokens.site#%d' % (ex.fn, j), st, ex.spec(a, st), {'assert': a})
+        # continue only with states that satisfy the precondition (its failure is reported by the goal above)
+        for r in group_tokens_new.requires:
+            t = ex.spec(r, pre)
+            st.assume(z3.BoolVal(t) if isinstance(t, bool) else t)
+        if not smt.feasible(st.pc):
+            return []
+        lst = ex.getattr(me, 'tokens', st)
+        zs, ze = ex.z_int(start), ex.z_int(end)
+        out = []
+        for s1, first in ex.elem_at(st, lst, zs):
+            ka = ex.split_at(s1, lst, zs)
+            kb = ex.split_at(s1, lst, z3.simplify(ze + 1))
+            ka = ex.split_at(s1, lst, zs)
+            items = s1.lists[lst.lid]
+            sl = items[ka:kb]
+            is_ext = False
+            if extend is True:
+                t = ex.isinstance_ext(first, cls, s1)
+                branches = ex.decide(s1, t.z if hasattr(t, 'z') else t)
+            else:
+                branches = [(s1, False)]
+            for s2, ext in branches:
+                items = s2.lists[lst.lid]
+                if ext:
+                    grp = first
+                    gl = ex.getattr(grp, 'tokens', s2)
+                    s2.lists[gl.lid] = s2.lists[gl.lid] + tuple(sl[1:])
+                    txt = ex.list_txt(s2, gl)
+                    s2.objs[grp.oid]['value'] = SStr(txt)
+                    moved = sl[1:]
+                else:
+                    sub = ex.new_list(s2, list(sl))
+                    r = _TokenListInit.construct(ex, cls, [sub], {}, s2)
+                    if len(r) != 1:
+                        raise OutsideSubset('constructor forks')
+                    grp = r[0][1]
+                    s2.objs[grp.oid]['parent'] = me
+                    moved = sl
+                # re-parent the moved children
+                for it in moved:
+                    if it[0] == 'el' and isinstance(it[1], Rec):
+                        s2.objs[it[1].oid]['parent'] = grp
+                    elif it[0] == 'seg':
+                        seg = dict(ex.segs(s2)[it[1]])
+                        seg['uni'] = dict(seg['uni'], parent=grp)
+                        ex.segs(s2)[it[1]] = seg
+                from pyvc.heap import bump
+                s2.lists[lst.lid] = items[:ka] + (('el', grp),) + items[kb:]
+                bump(s2, lst.lid)
+                out.append((s2, grp))
+        return out
+
+
+REG['sqlparse.sql.TokenList.group_tokens'] = _GroupTokensCallsite
